@@ -194,10 +194,10 @@ fn cases(run: &Run) -> Vec<Case> {
                         .filter(|t| grain == 1 || grain == units || *t % grain == 0)
                         .collect();
                     out.push(Case { units, heads, ppb, grain, totals: vec![units] });
-                    let pts: Vec<i32> = pts.into_iter().take(if thorough { 24 } else { 12 }).collect();
+                    let pts: Vec<i32> = pts.into_iter().take(if thorough { 16 } else { 12 }).collect();
                     for (i, &a) in pts.iter().enumerate() {
                         out.push(Case { units, heads, ppb, grain, totals: vec![a, units] });
-                        if thorough || units < 2000 {
+                        if units < if thorough { 3000 } else { 2000 } {
                             for &b in &pts[i + 1..] {
                                 out.push(Case { units, heads, ppb, grain, totals: vec![a, b, units] });
                             }
